@@ -18,6 +18,20 @@ ILLEGAL = [
 ]
 
 
+_MM = "einsum:\n  declaration:\n    A: [K, M]\n    B: [K, N]\n    Z: [M, N]\n  expressions:\n    - Z[m, n] = A[k, m] * B[k, n]\nmapping:\n  partitioning:\n    Z:\n"
+# specifications over the SAME rank names (K, M, N - also the accelerators' names) whose partitioning gives
+# those names different roots / levels: anything memoised per rank name across compilations shows up here
+COLLIDING = [
+    ("mm-flatten-MK-occ", _MM + "      (M, K): [flatten()]\n      MK: [uniform_occupancy(A.2)]\n"),
+    ("mm-shape-flatten-MK0-occ", _MM + "      K: [uniform_shape(2)]\n      (M, K0): [flatten()]\n      MK0: [uniform_occupancy(A.2)]\n"),
+    ("mm-K-two-shapes", _MM + "      K: [uniform_shape(4), uniform_shape(2)]\n"),
+    ("mm-K-occ", _MM + "      K: [uniform_occupancy(A.3)]\n      M: [uniform_shape(2)]\n"),
+    ("mm-KM-flatten", _MM + "      (K, M): [flatten()]\n"),
+    ("mm-hand-tiled", "einsum:\n  declaration:\n    A: [K1, K0, M]\n    B: [K1, K0, N]\n    Z: [M, N]\n  expressions:\n    - Z[m, n] = A[k1, k0, m] * B[k1, k0, n]\n"),
+    ("mm-N-nway", _MM + "      N: [nway_shape(2)]\n      K: [uniform_shape(3)]\n"),
+]
+
+
 class C15(common.SpecCheck):
     pid = "C15"
     title = "Compilation does not mutate its inputs and is repeatable"
@@ -27,7 +41,7 @@ class C15(common.SpecCheck):
     QUICK = {"nseeds": 4, "specs": 32, "round": 32, "budget": 0}
     THOROUGH = {"nseeds": 8, "specs": 0, "round": 96, "budget": 1200}
     rule = ("history machine: each unit is one history of 2-12 operations over a pool of 2-4 specifications (the five "
-            "accelerator specs in metrics mode, generated S/O/K/T specs in plain mode), run in a pristine child of a "
+            "accelerator specs in metrics mode, generated S/O/K/T/A specs in plain mode, and hand-written matmul mappings over the same rank names K/M/N whose partitioning gives those names different roots and levels), run in a pristine child of a "
             "template interpreter per hash seed. Operations: parse, compile on SHARED parsed objects, compile on fresh "
             "objects, and the faults compile_rejected (illegal spec raises, life goes on) and compile_aborted (SimAbort "
             "raised from sys.settrace at the n-th teaal line event; on fresh objects, or on a shared bundle which is then "
@@ -64,6 +78,9 @@ class C15(common.SpecCheck):
                 sp, meta = classes.gen_mixed(rng, [("S", 3), ("O", 3), ("K", 3), ("T", 2), ("A", 1)])
                 pool.append({"name": "gen-%s-%s" % (meta["class"], orch.sha(specmod.to_yaml(sp))[:6]),
                              "yaml": specmod.to_yaml(sp), "mode": "plain", "legal": True})
+        if rng.random() < 0.6:
+            for nm, y in rng.sample(COLLIDING, rng.randint(1, 2)):
+                pool.insert(rng.randrange(len(pool) + 1), {"name": nm, "yaml": y, "mode": "plain", "legal": True})
         if faults:
             nm, y = rng.choice(ILLEGAL)
             pool.append({"name": "illegal-" + nm, "yaml": y, "mode": "plain", "legal": False})
